@@ -51,11 +51,12 @@ const (
 	oWrongFunc
 	oStringNaN
 	oStringInf
+	oListThunks
 	nOutcomes
 )
 
 var outcomeNames = []string{"ok", "nil", "typed-nil", "NaN", "string-for-list", "int-for-object", "slice-for-leaf", "2^31", "unknown-enum-value",
-	"error", "value+error", "panic(error)", "panic(string)", "panic(int)", "thunk-ok", "thunk-error", "thunk-nil", "thunk-panics", "wrong-signature-func", "string-NaN", "string-Inf"}
+	"error", "value+error", "panic(error)", "panic(string)", "panic(int)", "thunk-ok", "thunk-error", "thunk-nil", "thunk-panics", "wrong-signature-func", "string-NaN", "string-Inf", "list-of-thunks"}
 
 func explicit(o int) bool {
 	switch o {
@@ -147,6 +148,16 @@ func (h *hooks) Resolve(typeName string, f *gen.FieldDef, p graphql.ResolveParam
 		return "NaN", nil
 	case oStringInf:
 		return "+Inf", nil
+	case oListThunks:
+		// every element of a list deferred on its own (the value itself when it is no list)
+		if l, ok := raw.([]interface{}); ok {
+			out := make([]interface{}, len(l))
+			for i := range l {
+				e := l[i]
+				out[i] = func() (interface{}, error) { return e, nil }
+			}
+			return out, nil
+		}
 	}
 	return raw, nil
 }
@@ -706,6 +717,10 @@ func (f *fixture) run(x *explore.X) (out outcome) {
 			if (strings.HasPrefix(t.what, "thunk") || t.what == "wrong-signature-func") && f.l.nearestNullable(t.path) != t.path {
 				out.fid = "C04-F2"
 			}
+			// the same for deferred list items in non-null item positions
+			if item := t.path + "/0"; t.what == "list-of-thunks" && f.l.nearestNullable(item) != item {
+				out.fid = "C04-F2"
+			}
 		}
 	}
 	return
@@ -725,7 +740,7 @@ func lattices(reduced bool) []lattice {
 				for l1 := range level1 {
 					for _, lf := range ls {
 						out = append(out, lattice{w1: w1, w2: w2, w3: w3, l1: l1, leaf: lf})
-						if reduced {
+						if reduced && lf == ls[0] {
 							out = append(out, lattice{w1: w1, w2: w2, w3: w3, l1: l1, leaf: lf, mut: true})
 						}
 					}
@@ -772,7 +787,7 @@ func run(c *core.Ctx) {
 				continue
 			}
 			if ph.deferred {
-				f.h.only = []int{oThunkOK, oThunkErr, oThunkNil}
+				f.h.only = []int{oThunkOK, oThunkErr, oThunkNil, oListThunks}
 			}
 			e := c.Explorer(ph.k) // lattices are sharded, not executions
 			e.Shard, e.NShards, e.ShardLevel = 0, 1, 0
@@ -831,7 +846,7 @@ func replay(c *core.Ctx, p map[string]interface{}) (bool, string) {
 		return false, err.Error()
 	}
 	if d, _ := p["deferred"].(bool); d {
-		f.h.only = []int{oThunkOK, oThunkErr, oThunkNil}
+		f.h.only = []int{oThunkOK, oThunkErr, oThunkNil, oListThunks}
 	}
 	var out outcome
 	explore.Replay(choices, 0, func(x *explore.X, owned bool) uint64 {
